@@ -345,6 +345,69 @@ def check_ranges(ctx, rep, rule='I-ranges'):
     rep.ob(rule, 'collinear-overlap', ok,
            'collinear segments must be reported as an overlap iff smin <= 1 && smax >= 0 and neither smin == 1 nor smax == 0 (those '
            'touch in a single point); conditions found: %s' % [c for (c, k) in ov][:1], loc=b.loc(b.j['line_lo']), reason='table-row')
+    # 4. classification: the crossing formula is used exactly when the determinant kross = va x vb is non-zero; with kross == 0 the
+    #    segments are reported as non-intersecting when b1 is off the carrier line of a (e x va != 0) and go to the collinear
+    #    logic otherwise.  A test is read by what it says about K != 0 (K*K > 0, K != 0, !(K*K <= 0), ... are the same thing).
+    def nonzero_test(x, val, K):
+        """True / False: the condition (with outcome val) says K != 0 / K == 0; 'bad': it compares a K-quantity in a way that is not
+        that test; None: not about K"""
+        if not (x[0] == 'op' and len(x) == 4 and x[1] in ('lt', 'gt', 'le', 'ge', 'eq', 'ne')):
+            return None
+        try:
+            la, lb = ratfun.alternatives(strip_upd(x[2])), ratfun.alternatives(strip_upd(x[3]))
+        except NotRational:
+            return None
+        if len(la) != 1 or len(lb) != 1:
+            return None
+        op = x[1]
+        q, z = la[0], lb[0]
+        if q.is_zero() and not z.is_zero():
+            q, z, op = z, q, {'lt': 'gt', 'gt': 'lt', 'le': 'ge', 'ge': 'le', 'eq': 'eq', 'ne': 'ne'}[op]
+        if not z.is_zero():
+            return None
+        if q.same(K * K):
+            return {'gt': val, 'ne': val, 'eq': not val, 'le': not val}.get(op, 'bad')
+        if q.same(K) or q.same(-K):
+            return {'ne': val, 'eq': not val}.get(op, 'bad')
+        return None
+
+    K1, K2 = kross, cross(e, va)
+    bad_cls = []
+    n_cls = 0
+    for (conds, variant, raws, p) in cases:
+        k1 = k2 = None
+        for (v, c) in p.conds:
+            x = strip_upd(v)
+            if c[0] != 'eq':
+                continue
+            for K, which in ((K1, 1), (K2, 2)):
+                r = nonzero_test(x, bool(c[1]), K)
+                if r == 'bad':
+                    bad_cls.append('a comparison of %s that is not a test against zero: %s' % ('va x vb' if which == 1 else 'e x va', show(noepoch(x))[:70]))
+                elif r is not None:
+                    if which == 1:
+                        k1 = r
+                    else:
+                        k2 = r
+        uses_st = any(nm in ('s', 't') for (_, a_, b_, _) in conds for nm in (a_, b_))
+        uses_sab = any(nm in ('sa', 'sb', 'smin', 'smax') for (_, a_, b_, _) in conds for nm in (a_, b_))
+        n_cls += 1
+        if variant in ('Point', 'Overlap') and k1 is None:
+            bad_cls.append('a %s is reported without the determinant va x vb having been tested' % variant)
+        if uses_st and k1 is not True:
+            bad_cls.append('the crossing parameters s, t are used on a path that does not assume va x vb != 0')
+        if k1 is True and variant == 'Overlap':
+            bad_cls.append('an overlap is reported for non-parallel segments')
+        if k1 is False and k2 is None and variant != 'None':
+            bad_cls.append('parallel segments reach the collinear logic without e x va having been tested')
+        if k1 is False and k2 is True and variant != 'None':
+            bad_cls.append('parallel segments on different lines (e x va != 0) are reported as %s' % variant)
+        if uses_sab and not (k1 is False and k2 is False):
+            bad_cls.append('the collinear parameters are used on a path that does not assume va x vb == 0 and e x va == 0')
+    n += 1
+    rep.ob(rule, 'classification', not bad_cls and n_cls > 0,
+           'crossing / parallel / collinear must be told apart by va x vb != 0 and e x va != 0: %s' % '; '.join(sorted(set(bad_cls))[:3]),
+           loc=b.loc(b.j['line_lo']), reason='table-row')
     rep.rows_compared += n
     rep.floor(rule, 'return cases of intersection()', len(cases), 12)
 
